@@ -132,6 +132,15 @@ pub fn alternatives(sys: &System) -> Vec<Alt> {
             out.push(Alt { act, cost: 1 });
         }
     }
+    // one tick before the earliest expiry (catches early firing)
+    if let Some(t) = expiries.first() {
+        if *t >= 1 && *t - 1 > sys.clock {
+            out.push(Alt {
+                act: Act::Clock(*t - 1),
+                cost: 1,
+            });
+        }
+    }
     for k in 0..deferred {
         let act = Act::Complete(k);
         if act != default {
